@@ -36,7 +36,7 @@ ANCHORS = [
     ("deepali.core.image", "dot_channels"),
     ("deepali.losses.base", "NormalizedPairwiseImageLoss.__init__"),
 ]
-N_CASES = {"quick": 60, "thorough": 3000}
+N_CASES = {"quick": 60, "thorough": 8000}
 BUDGET = {"quick": 500, "thorough": 5400}
 POINTWISE = ["mse_loss", "ssd_loss", "mae_loss", "l1_loss", "huber_loss", "smooth_l1_loss"]
 MASK_SHAPES = ["NC", "1C", "N1", "11"]
